@@ -315,6 +315,9 @@ def run(P, R, tier):
     from ..engines import proto as _pst9
     for f9_ in P.all_funcs(['factor_analysis']):
         _pst9.check_standins(P, R, f9_.key)
+    from .C07 import check_precision_deps as _cpd9
+    _cpd9(P, R)
+
 
 
 EXPLANATION += ' Also: (ACC.sum) accumulators are summed over classes / sessions; (POL.acc-placement) every factor of A1 / A2 multiplies; (OPT); (IDX.class-select); (COVER.reduce_iadd / COVER.pairs) per-class accumulators are folded whole; (DTYPE.raw).'
